@@ -48,7 +48,8 @@ Mont2EdOK(e) ==
                       /\ LET Q == PtOf(e) IN ExtValid(Q) /\ ExtEq(Q, d[2])
 
 EventOK(e) ==
-  CASE e.op = "decode" -> DecodeOK(e)
+  CASE e.op = "fresh" -> e.ok = TRUE      \* values handed to the caller are the caller's own (vfresh in the recorder)
+    [] e.op = "decode" -> DecodeOK(e)
     [] e.op = "unmarshal" -> UnmarshalOK(e)
     [] e.op = "preds" -> PredsOK(e)
     [] e.op = "equal" -> LET P1 == PtOf(e.p)  Q1 == PtOf(e.q) IN
